@@ -389,7 +389,7 @@ impl Recd {
         let share = if is_client { cke.get(1..).unwrap_or(&[]).to_vec() }
             else { ske.get(3).map(|l| ske.get(4..4 + *l as usize).unwrap_or(&[]).to_vec()).unwrap_or_default() };
         let init = format!("init,{},{},{},{},{},{},{},{},{},{},{}", if is_client { "c" } else { "s" },
-            self.expected.as_ref().map(|f| hex(f.as_bytes())).unwrap_or("-".into()),
+            self.expected.as_ref().map(|f| if f.is_empty() { "=".to_string() } else { hex(f.as_bytes()) }).unwrap_or("-".into()),
             hex(&share), hex(ch.get(2..34).unwrap_or(&[])), hex(&ch), hex(&self.own_body(1, 1)),
             hex(sh.get(2..34).unwrap_or(&[])), hex(&sh), hex(&self.own_body(11, 0)), hex(&ske), hex(&cke));
         let facts = if self.facts.is_empty() { "-".to_string() } else { self.facts.iter().map(|(k, v)| format!("{k}={v}")).collect::<Vec<_>>().join(";") };
